@@ -368,16 +368,20 @@ func runC02Bindings(c *core.Ctx, s *world.Schema, g0 *world.Graph, report func(p
 		cfg  world.Config
 		reg  bool // RegisterField explicit
 		tri  []string
+		// refused: after the registrations, RegisterField calls that are refused (an argument the field does not have, too few
+		// arguments): a refused registration changes nothing
+		refused bool
 	}
 	modes := []mode{
-		{"RS", world.Config{Strat: world.RS, Schema: s}, false, nil},
-		{"AS", world.Config{Strat: world.AS, Schema: s}, false, nil},
-		{"FS/auto", world.Config{Strat: world.FS, Bind: world.BindByName, Schema: s}, false, nil},
-		{"FS/registered-types", world.Config{Strat: world.FS, Bind: world.BindRegister, Schema: s}, false, nil},
-		{"FS/registered-fields", world.Config{Strat: world.FS, Bind: world.BindRegister, Schema: s}, true, nil},
+		{"RS", world.Config{Strat: world.RS, Schema: s}, false, nil, false},
+		{"AS", world.Config{Strat: world.AS, Schema: s}, false, nil, false},
+		{"FS/auto", world.Config{Strat: world.FS, Bind: world.BindByName, Schema: s}, false, nil, false},
+		{"FS/registered-types", world.Config{Strat: world.FS, Bind: world.BindRegister, Schema: s}, false, nil, false},
+		{"FS/registered-fields", world.Config{Strat: world.FS, Bind: world.BindRegister, Schema: s}, true, nil, false},
 		// tri bound to methods whose parameter orders are the 3-cycles of the declared order
-		{"FS/registered-fields-cab", world.Config{Strat: world.FS, Bind: world.BindRegister, Schema: s}, true, []string{"tri", "TriCAB", "c", "a", "b"}},
-		{"FS/registered-fields-bca", world.Config{Strat: world.FS, Bind: world.BindRegister, Schema: s}, true, []string{"tri", "TriBCA", "b", "c", "a"}},
+		{"FS/registered-fields-cab", world.Config{Strat: world.FS, Bind: world.BindRegister, Schema: s}, true, []string{"tri", "TriCAB", "c", "a", "b"}, false},
+		{"FS/registered-fields-bca", world.Config{Strat: world.FS, Bind: world.BindRegister, Schema: s}, true, []string{"tri", "TriBCA", "b", "c", "a"}, false},
+		{"FS/registered-fields+refused-registrations", world.Config{Strat: world.FS, Bind: world.BindRegister, Schema: s}, true, nil, true},
 	}
 	for di, d := range append(docs, revDocs...) {
 		isRev := di >= len(docs)
@@ -407,6 +411,15 @@ func runC02Bindings(c *core.Ctx, s *world.Schema, g0 *world.Graph, report func(p
 					for _, rf := range [][]string{tri, {"rev", "Rev", "y", "x"}, {"title", "Title"}, {"echo", "Echo", "s", "b"}} {
 						if e := regField(root, tn, rf); e != nil {
 							report("D-binding", "register-error", e.Error(), map[string]string{"mode": m.name, "field": rf[0]}, worldCase{Config: m.name, Query: text})
+						}
+					}
+				}
+			}
+			if m.refused {
+				for _, tn := range []string{"Query", "A", "B", "C"} {
+					for _, rf := range [][]string{{"tri", "Tri", "c", "zz", "a"}, {"tri", "Tri", "a"}, {"rev", "Rev", "x"}, {"echo", "Echo", "b", "s", "zz"}, {"title", "Nope"}} {
+						if e := regField(root, tn, rf); e == nil {
+							report("D-binding", "register-error", "a registration that names an argument the field does not have / too few arguments / no such Go field was accepted", map[string]string{"mode": m.name, "field": rf[0]}, worldCase{Config: m.name, Query: text})
 						}
 					}
 				}
